@@ -191,10 +191,94 @@ def FromPattern (m : Match) : Bool :=
   | none, none, none, none => isSpace m
   | _, _, _, _ => false
 
-/-- CPython 3.12 instance of the oracles used by the driver: `float()`/`Decimal()` accept every text
-of the numeric literal pattern; `int()` rejects more than 4300 digits -/
+/-- CPython 3.12 instance of the oracles used by the driver.  The literal pattern
+`(?:\d+|\.\d+)(?:\.\d*)?(?:[Ee][+-]?\d+)?` also matches texts with two dots (`.1.`, `.1.5e3`), which
+`float()`/`Decimal()` reject; `int()` rejects more than 4300 digits. -/
 def pyOracles (nameLike : String → Bool) : Oracles :=
-  { nameLike := nameLike, floatOk := fun _ => true, decimalOk := fun _ => true,
+  let oneDot := fun (l : String) => decide ((l.toList.filter (· == '.')).length ≤ 1)
+  { nameLike := nameLike, floatOk := oneDot, decimalOk := oneDot,
     intOk := fun l => l.length ≤ 4300 }
+
+
+/-! ## comments: `Parser.advance_until` and `XPath2Parser.advance` -/
+
+/-- `str.strip()` -/
+def pyStrip (s : String) : String :=
+  String.ofList (((s.toList.dropWhile pyIsSpaceChar).reverse.dropWhile pyIsSpaceChar).reverse)
+
+/-- the `while True:` loop of `Parser.advance_until` (tdop.py:590-610) over the pending matches;
+the returned source chunk is not part of the property and is dropped -/
+def untilLoop (tb : Table) (stops : List String) (c : Cursor Tok Match) :
+    List Match → Except Err Unit × Cursor Tok Match
+  | [] =>                                                          -- StopIteration
+    match mk tb "(end)" "(end)" with
+    | .ok t => (.ok (), { c with tokens := [], nextToken := t })
+    | .error e => (.error e, { c with tokens := [] })
+  | m :: rest =>
+    let c1 := { c with nextMatch := some m, tokens := rest }
+    match m.sym with
+    | some s =>
+      if stops.contains (pyStrip s) then
+        match mk tb (pyStrip s) (pyStrip s) with
+        | .ok t => (.ok (), { c1 with nextToken := t })
+        | .error _ =>                                              -- except KeyError
+          match mk tb "(unknown)" "(unknown)" with
+          | .ok t => (.error (.coded (wrongSyntaxCode t)), { c1 with nextToken := t })
+          | .error e => (.error e, c1)
+      else untilLoop tb stops c1 rest
+    | none => untilLoop tb stops c1 rest
+
+/-- `Parser.advance_until(*stop_symbols)` (tdop.py:573-611) -/
+def advanceUntil (tb : Table) (stops : List String) (c : Cursor Tok Match) :
+    Except Err Unit × Cursor Tok Match :=
+  if stops.isEmpty then (.error (.coded "FORG0006"), c)            -- `wrong_type(...)`
+  else if c.nextToken.symbol == "(end)" then (.error (.coded (wrongSyntaxCode c.nextToken)), c)
+  else untilLoop tb stops { c with token := c.nextToken } c.tokens
+
+/-- the `while comment_level:` loop of `XPath2Parser.advance` (xpath2_parser.py:231-236) -/
+def commentLoop (tb : Table) : Nat → Nat → Cursor Tok Match → Except Err Unit × Cursor Tok Match
+  | _, 0, c => (.ok (), c)
+  | 0, _ + 1, c => (.error (.other "fuel"), c)
+  | fuel + 1, level + 1, c =>
+    match advanceUntil tb ["(:", ":)"] c with
+    | (.error e, c') => (.error e, c')
+    | (.ok (), c') =>
+      if c'.nextToken.symbol == ":)" then commentLoop tb fuel level c'
+      else commentLoop tb fuel (level + 2) c'
+
+/-- `XPath2Parser.advance` (xpath2_parser.py:220-243): the base `advance`, then — if the look-ahead
+is `(:` — the (nested) comment is consumed and `advance(':)')` is called recursively.  The fuel of
+the comment loop is computed from the cursor; `EPV.C03.advance2_total` shows that neither fuel can
+run out, i.e. the Python loops terminate. -/
+def advance2 (tb : Table) (o : Oracles) : Nat → List String → Cursor Tok Match →
+    Except Err Unit × Cursor Tok Match
+  | 0, _, c => (.error (.other "fuel"), c)
+  | fuel + 1, symbols, c =>
+    match advance tb o symbols c with
+    | (.error e, c1) => (.error e, c1)
+    | (.ok (), c1) =>
+      if c1.nextToken.symbol != "(:" then (.ok (), c1)
+      else if c1.token.symbol == ":" then (.error (.coded (wrongSyntaxCode c1.token)), c1)  -- unexpected(':')
+      else
+        match commentLoop tb (c1.tokens.length + 2) 1 c1 with
+        | (.error e, c2) => (.error e, c2)
+        | (.ok (), c2) =>
+          match advance2 tb o fuel [":)"] c2 with
+          | (.error e, c3) => (.error e, c3)
+          | (.ok (), c3) =>
+            if c3.nextToken.symbol == ":" then (.error (.coded (wrongSyntaxCode c3.nextToken)), c3)
+            else (.ok (), { c3 with token := c1.token })
+
+/-- lexing a whole source with `XPath2Parser.advance` -/
+def lexAll2 (tb : Table) (o : Oracles) : Nat → Cursor Tok Match → List String × Option Err × String
+  | 0, c => ([], some (.other "fuel"), c.nextToken.symbol)
+  | fuel + 1, c =>
+    match advance2 tb o (c.tokens.length + 1) [] c with
+    | (.error e, c') => ([], some e, c'.nextToken.symbol)
+    | (.ok (), c') =>
+      if c'.nextToken.symbol == "(end)" then (["(end)"], none, "(end)")
+      else
+        let (l, e, last) := lexAll2 tb o fuel c'
+        (c'.nextToken.symbol :: l, e, last)
 
 end EPV.Lexer
